@@ -143,13 +143,15 @@ contract(
     ],
     ensures=[
         (
-            "2-d: YX; 3-d: band-last when the last axis has 3 or 4 samples or the first two match the GeoBox, band-first when the last two match (or without a GeoBox)",
+            "2-d: YX; 3-d: whatever the GeoBox says when exactly one of the two layouts matches it (also for images 3 or 4 pixels wide); otherwise band-last for 3 or 4 trailing samples (RGB(A)) or a GeoBox matching the first two axes, else band-first",
             lambda shape, gbox, result: (result == ("YX", 0))
             if len(shape) == 2
-            else Ite(
-                Or(shape[2] == 3, shape[2] == 4),
-                result[0] == "YXS",
-                (result[0] == "SYX") if gbox is None else Ite(And(gbox.shape.y == shape[0], gbox.shape.x == shape[1]), result[0] == "YXS", result[0] == "SYX"),
+            else (
+                Ite(Or(shape[2] == 3, shape[2] == 4), result[0] == "YXS", result[0] == "SYX")
+                if gbox is None
+                else (lambda yxs, syx: Ite(And(yxs, Not(syx)), result[0] == "YXS", Ite(And(syx, Not(yxs)), result[0] == "SYX", Ite(Or(shape[2] == 3, shape[2] == 4), result[0] == "YXS", Ite(yxs, result[0] == "YXS", result[0] == "SYX")))))(
+                    And(gbox.shape.y == shape[0], gbox.shape.x == shape[1]), And(gbox.shape.y == shape[1], gbox.shape.x == shape[2])
+                )
             ),
         ),
         ("y axis position matches the order", lambda result: result[1] == (1 if result[0] == "SYX" else 0)),
@@ -561,6 +563,8 @@ def _dcog_samples():
             dict(shape=(272, 300), layout="syx", nsamples=2, dtype="uint16", nodata=65535, blocksize=[16], chunks=(272, 300), compression="NONE"),
             dict(shape=(400, 400), layout="yx", dtype="uint8", blocksize=[256, 128], chunks=((100, 256, 44), (256, 144))),  # IRREGULAR source chunks whose largest chunk equals the tile
             dict(shape=(400, 400), layout="syx", nsamples=2, dtype="int16", blocksize=[256, 128], chunks=((144, 256), (144, 256))),
+            dict(shape=(50, 3), layout="syx", nsamples=2, dtype="uint8", blocksize=[16], chunks=(50, 3)),  # band-first and only 3 pixels wide: not RGB
+            dict(shape=(40, 4), layout="syx", nsamples=3, dtype="int16", blocksize=[16], chunks=(16, 4)),
             dict(shape=(70, 90), layout="yx", dtype="int32", blocksize=[32], chunks=(32, 32), huge=True),  # band statistics with many digits
             dict(shape=(40, 40), layout="syx", nsamples=3, dtype="uint32", nodata=0, blocksize=[16], chunks=(16, 16), huge=True),
             dict(shape=(33, 47), layout="yxs", nsamples=3, dtype="float64", blocksize=[16], chunks=(33, 47), huge=True, compression="NONE"),
@@ -573,7 +577,7 @@ def _dcog_samples():
             yield dict(case=no_predictor_without_compression(one(i)))
             i += 1
 
-    return "19 fixed (incl. irregularly chunked sources, images whose padding adds whole tile rows / columns, full-range int32 / uint32 and 1e300-sized float64 values) + 24 (quick) / 120 (thorough) pseudo-random combinations of 7 shapes (incl. single row / column, narrower than a tile) x YX / YXS / SYX x dtypes x nodata x block-size lists x compression (incl. none) / predictor x source chunking x spill size x writes per chunk x synchronous / threaded scheduler x CRS x rotated", gen()
+    return "21 fixed (incl. band-first images 3 / 4 pixels wide, irregularly chunked sources, images whose padding adds whole tile rows / columns, full-range int32 / uint32 and 1e300-sized float64 values) + 24 (quick) / 120 (thorough) pseudo-random combinations of 7 shapes (incl. single row / column, narrower than a tile) x YX / YXS / SYX x dtypes x nodata x block-size lists x compression (incl. none) / predictor x source chunking x spill size x writes per chunk x synchronous / threaded scheduler x CRS x rotated", gen()
 
 
 def _dcog_oracle(args, run=None):
